@@ -941,6 +941,37 @@ func (t *Term) str(d int) string {
 }
 
 // Eval evaluates a term under a model (variable name -> value). UF apps use the uf callback.
+// EvalOK evaluates t under a model; ok=false if t mentions something the model does not determine
+// (arrays, uninterpreted applications without a recorded value).
+func EvalOK(t *Term, m map[string]uint64, memo map[*Term]uint64) (v uint64, ok bool) {
+	defer func() {
+		if r := recover(); r != nil {
+			if _, is := r.(evalUndef); is {
+				v, ok = 0, false
+				return
+			}
+			panic(r)
+		}
+	}()
+	uf := func(name string, args []uint64) uint64 { panic(evalUndef{}) }
+	return evalStrict(t, m, uf, memo), true
+}
+
+type evalUndef struct{}
+
+func evalStrict(t *Term, m map[string]uint64, uf func(name string, args []uint64) uint64, memo map[*Term]uint64) uint64 {
+	switch t.Op {
+	case OApp, OSelect:
+		if v, ok := m[Label(t)]; ok {
+			return v
+		}
+		panic(evalUndef{})
+	case OStore, OArrVar, OArrConst:
+		panic(evalUndef{})
+	}
+	return Eval(t, m, uf, memo)
+}
+
 func Eval(t *Term, m map[string]uint64, uf func(name string, args []uint64) uint64, memo map[*Term]uint64) uint64 {
 	if t.Op == OConst {
 		return t.Val
@@ -952,7 +983,17 @@ func Eval(t *Term, m map[string]uint64, uf func(name string, args []uint64) uint
 	switch t.Op {
 	case OVar:
 		r = m[t.Name] & mask(max(t.W, 1))
+	case OSelect, OStore, OArrVar, OArrConst:
+		if v, ok := m[Label(t)]; ok && t.Op == OSelect {
+			r = v
+		} else if uf != nil {
+			r = uf("?array", nil)
+		}
 	case OApp:
+		if v, ok := m[Label(t)]; ok {
+			memo[t] = v
+			return v
+		}
 		args := make([]uint64, t.N)
 		for i := 0; i < t.N; i++ {
 			args[i] = Eval(t.A[i], m, uf, memo)
